@@ -1,6 +1,118 @@
-From Coq Require Import List String.
-From GinV Require Import Model.Values Model.Gin.
+(* C06 — the config string round-trips, is canonical and always parses.
+   Model: Model/Serial.v (config_str at the level of lines; the TEXT of a value and its representability
+   are an oracle supplied per value by the harness: v_lines, v_repr_ok).
+   Proved here, for every registry, import list, entry list, width and indent:
+     - canonical: the text depends only on the SET of bindings (any permutation of the sections, any
+       permutation of the parameters inside a section gives the identical lines); sections and parameters
+       are sorted by a strict total order whose ties cannot occur between different (scope, selector) keys;
+     - always parses / omits: a value is emitted iff it is representable (both directions);
+     - layout of one binding (single line, continuation, too long);
+     - Markdown keeps every binding line verbatim (4-space code block), for every text config_str can emit.
+   NOT proved in Coq (C06_roundtrip is only validated, on the real parser and the real pprint/repr):
+     parse(config_str()) restores every representable binding and re-serialises to the identical text.
+     That clause is decided by the independent predicates of harness/props/c06.py on the implementation
+     and by the correspondence engine 'serial'. *)
+From Coq Require Import List String ZArith Bool Arith Ascii Sorting.Permutation Sorting.Sorted.
+From GinV Require Import Lib.Out Lib.PyStr Model.SelectorMap Model.Serial Proofs.SerialProofs.
 Import ListNotations.
-Theorem C06_placeholder : prefixes [1;2] = [[]; [1]; [1;2]].
-Proof. reflexivity. Qed.
-Print Assumptions C06_placeholder.
+Open Scope string_scope.
+Open Scope list_scope.
+
+(* ---- canonical ---- *)
+Theorem C06_order_independent : forall registry imports es1 es2 maxlen indent,
+  NoDup (map (fun e => (e_scope e, e_sel e)) es1) -> Permutation es1 es2 ->
+  config_lines registry imports es1 maxlen indent = config_lines registry imports es2 maxlen indent.
+Proof. exact SerialProofs.C06_order_independent. Qed.
+
+Theorem C06_params_order_independent : forall e1 e2,
+  NoDup (map fst (e_params e1)) -> Permutation (e_params e1) (e_params e2) ->
+  section_params e1 = section_params e2.
+Proof. exact SerialProofs.C06_section_params_order_independent. Qed.
+
+Theorem C06_params_sorted : forall e,
+  StronglySorted (fun x y => String.ltb (fst y) (fst x) = false) (section_params e).
+Proof. exact SerialProofs.C06_params_sorted. Qed.
+
+Theorem C06_sections_sorted : forall entries,
+  StronglySorted (fun x y => full_key_ltb (full_key y) (full_key x) = false) (sort_stable full_key full_key_ltb entries).
+Proof. intros. apply sort_stable_sorted. exact full_key_ltb_strict_total. Qed.
+
+(* the order is total on keys: two sections compare equal only if they are the same (scope, selector) *)
+Theorem C06_order_total : strict_total full_key_ltb /\
+  (forall e1 e2, full_key e1 = full_key e2 -> e_scope e1 = e_scope e2 /\ e_sel e1 = e_sel e2).
+Proof. split; [exact full_key_ltb_strict_total | exact full_key_injective]. Qed.
+
+(* ---- only what parses is emitted, and everything that parses is ---- *)
+Theorem C06_lines_are_rendered_items : forall registry imports entries maxlen indent,
+  config_lines registry imports entries maxlen indent =
+  flat_map (render_item maxlen indent) (config_items registry imports entries maxlen).
+Proof. exact config_lines_items. Qed.
+
+Theorem C06_only_representable_emitted : forall registry imports entries maxlen,
+  Forall (fun v => v_repr_ok v = true) (emitted_values registry imports entries maxlen).
+Proof. exact SerialProofs.C06_only_representable_emitted. Qed.
+
+Theorem C06_emitted_binding_origin : forall registry imports entries maxlen key v,
+  In (IBind key v) (config_items registry imports entries maxlen) ->
+  v_repr_ok v = true /\ exists e name, In e entries /\ In (name, v) (e_params e).
+Proof. exact config_items_bind_origin. Qed.
+
+Theorem C06_representable_emitted : forall registry imports entries maxlen e k v,
+  In e entries -> section_ok e = true -> In (k, v) (e_params e) -> v_repr_ok v = true ->
+  In (section_name registry e ^^ "." ^^ k, v) (emitted_bindings registry imports entries maxlen).
+Proof. exact SerialProofs.C06_representable_emitted. Qed.
+
+(* ---- one binding ---- *)
+Theorem C06_binding_single_line : forall maxlen indent key one, cp_length (key ^^ one) <= maxlen ->
+  format_binding maxlen indent key {| v_repr_ok := true; v_lines := [one] |} = [key ^^ " = " ^^ one].
+Proof. exact format_binding_single. Qed.
+Theorem C06_binding_continuation : forall maxlen indent key ls v, v_lines v = ls -> List.length ls <> 1 ->
+  format_binding maxlen indent key v = (key ^^ " = \") :: map (indent_line indent) ls.
+Proof. exact format_binding_continuation. Qed.
+Theorem C06_binding_too_long : forall maxlen indent key one v, v_lines v = [one] ->
+  maxlen < cp_length (key ^^ one) ->
+  format_binding maxlen indent key v = [key ^^ " = \"; indent_line indent one].
+Proof. exact format_binding_too_long. Qed.
+
+(* ---- Markdown ---- *)
+Theorem C06_markdown_verbatim : forall registry imports entries maxlen indent,
+  1 <= indent ->
+  (forall e, In e entries -> String.prefix "#" (e_scope e) = false /\ contains_char hash (e_sel e) = false) ->
+  let ls := md_body (config_lines registry imports entries maxlen indent) in
+  filter (fun l => String.prefix "    " l && negb (String.eqb l "    # None.")) (markdown ls) =
+  map (fun l => "    " ^^ l) (filter (fun l => negb (String.prefix "#" l)) ls).
+Proof. intros. apply C06_markdown_verbatim_config; [assumption | apply keys_hash_free_of_selectors; assumption]. Qed.
+
+(* the unconditional statement over arbitrary lines is false: a comment line that is itself indented *)
+Theorem C06_markdown_arbitrary_lines_refuted :
+  filter (fun l => String.prefix "    " l && negb (String.eqb l "    # None.")) (markdown ["#     x"]) <>
+  map (fun l => "    " ^^ l) (filter (fun l => negb (String.prefix "#" l)) ["#     x"]).
+Proof. vm_compute. discriminate. Qed.
+
+(* ---- imports of the header ---- *)
+Theorem C06_import_modules_unique : forall imports, NoDup (map i_module (import_manager imports)).
+Proof. exact import_manager_unique_modules. Qed.
+Theorem C06_import_modules_complete : forall imports i, In i imports ->
+  In (i_module i) (map i_module (import_manager imports)).
+Proof. exact import_manager_modules_complete. Qed.
+Theorem C06_import_names_unique : forall imports, List.length imports + 3 <= 10 ^ 20 ->
+  NoDup (map bound_name (import_manager imports)).
+Proof. exact import_manager_unique_names. Qed.
+
+Print Assumptions C06_order_independent.
+Print Assumptions C06_params_order_independent.
+Print Assumptions C06_params_sorted.
+Print Assumptions C06_sections_sorted.
+Print Assumptions C06_order_total.
+Print Assumptions C06_lines_are_rendered_items.
+Print Assumptions C06_only_representable_emitted.
+Print Assumptions C06_emitted_binding_origin.
+Print Assumptions C06_representable_emitted.
+Print Assumptions C06_binding_single_line.
+Print Assumptions C06_binding_continuation.
+Print Assumptions C06_binding_too_long.
+Print Assumptions C06_markdown_verbatim.
+Print Assumptions C06_markdown_arbitrary_lines_refuted.
+Print Assumptions C06_import_modules_unique.
+Print Assumptions C06_import_modules_complete.
+Print Assumptions C06_import_names_unique.
